@@ -6,23 +6,30 @@ package conf
 //
 // ops (names are hex, "-" = empty)
 //   reset    delimits a case; every other op is self-contained
-//   validate <n> {<name> <compiles>}…
-//        the key set is put into Conf.OptionalPaths (nil values) of a default configuration and the real
-//        Conf.Validate is run.  <compiles> is an oracle column: regexp.Compile(name[1:]) == nil.
+//   validate <n> {<name> <compiles> <member>}…
+//        a configuration document {"paths": {<name>: null | {"name": <member>}}} is written to a file and loaded
+//        with the real loader (conf.Load: YAML/JSON -> Validate).  <member> = "N" (path entry is null) or
+//        "S<hex>" (the entry carries a `name` member, as a body copied from GET of another path does); the model
+//        ignores it: configurations are resolved by KEY.  <compiles> is an oracle column:
+//        regexp.Compile(name[1:]) == nil.
 //        answer: "ok <regex flag per name>" | "err alias|name|regex|other"
-//   find <req> <n> {<name> <regex> <groups>}…
-//        the configuration set is rebuilt through the real Validate; the resulting map[string]*Path is
+//   find <req> <n> {<name> <regex> <groups> <member>}…
+//        the configuration set is rebuilt through the real loader; the resulting map[string]*Path is
 //        copied into several fresh maps (shuffled insertion order, different size hints) and the real
 //        FindPathConf is called several times on each (Go randomises the iteration start per range).
 //        <regex> = Path.Regexp != nil as left by Validate; <groups> is an oracle column computed by calling
 //        regexp directly on the expression the name denotes (name[1:], or ^.*$ for all / all_others):
 //        "N" = nil, "M<k> <g0> … <gk-1>".
 //        answer: "found <key> N" | "found <key> M<k> <g>…" | "err invalid" | "err notconf" |
-//                "nondet <a> | <b>" if two calls disagree.
+//                "nondet <a> | <b>" if two calls disagree.  The configuration is identified by the KEY it is
+//                stored under (pointer identity), whatever its Name field says.
 
 import (
+	"encoding/json"
 	"fmt"
 	"hash/fnv"
+	"os"
+	"path/filepath"
 	"regexp"
 	"strings"
 	"testing"
@@ -61,34 +68,81 @@ func verifC14Groups(m []string) string {
 	return sb.String()
 }
 
-func verifC14Build(names []string) (*Conf, error) {
-	c := &Conf{}
-	c.setDefaults()
-	c.OptionalPaths = make(map[string]*OptionalPath)
-	for _, n := range names {
-		c.OptionalPaths[n] = nil
-	}
-	return c, c.Validate(nil)
+// verifC14Key is one entry of the `paths` map of the document.
+type verifC14Key struct {
+	name   string
+	member string // value of the `name` member inside the entry
+	has    bool   // false: the entry is null
 }
 
-func verifC14ValidateOp(names []string) string {
+func (k verifC14Key) tok() string {
+	if !k.has {
+		return "N"
+	}
+	return "S" + verifutil.HexS(k.member)
+}
+
+func verifC14ParseMember(name, tok string) verifC14Key {
+	if tok == "N" {
+		return verifC14Key{name: name}
+	}
+	return verifC14Key{name: name, member: verifutil.UnHexS(tok[1:]), has: true}
+}
+
+var (
+	verifC14Dir       string
+	verifC14CacheKey  string
+	verifC14CacheConf *Conf
+	verifC14CacheErr  error
+)
+
+// verifC14Build loads the document with the real loader (cached for the lookups of one case).
+func verifC14Build(keys []verifC14Key) (*Conf, error) {
+	paths := map[string]any{}
+	ck := ""
+	for _, k := range keys {
+		ck += verifutil.HexS(k.name) + " " + k.tok() + " "
+		if k.has {
+			paths[k.name] = map[string]any{"name": k.member}
+		} else {
+			paths[k.name] = nil
+		}
+	}
+	if ck == verifC14CacheKey && (verifC14CacheConf != nil || verifC14CacheErr != nil) {
+		return verifC14CacheConf, verifC14CacheErr
+	}
+	doc, err := json.Marshal(map[string]any{"paths": paths})
+	if err != nil {
+		panic(err)
+	}
+	fp := filepath.Join(verifC14Dir, "conf.yml")
+	if err = os.WriteFile(fp, doc, 0o600); err != nil {
+		panic(err)
+	}
+	c, _, err := Load(fp, nil, nil)
+	verifC14CacheKey, verifC14CacheConf, verifC14CacheErr = ck, c, err
+	return c, err
+}
+
+func verifC14ValidateOp(keys []verifC14Key) string {
 	var sb strings.Builder
-	fmt.Fprintf(&sb, "validate %d", len(names))
-	for _, n := range names {
+	fmt.Fprintf(&sb, "validate %d", len(keys))
+	for _, k := range keys {
 		c := 0
-		if verifC14Compiles(n) {
+		if verifC14Compiles(k.name) {
 			c = 1
 		}
-		fmt.Fprintf(&sb, " %s %d", verifutil.HexS(n), c)
+		fmt.Fprintf(&sb, " %s %d %s", verifutil.HexS(k.name), c, k.tok())
 	}
 	return sb.String()
 }
 
 // verifC14FindOp builds the op line for a validated configuration set.
-func verifC14FindOp(req string, names []string, paths map[string]*Path) string {
+func verifC14FindOp(req string, keys []verifC14Key, paths map[string]*Path) string {
 	var sb strings.Builder
-	fmt.Fprintf(&sb, "find %s %d", verifutil.HexS(req), len(names))
-	for _, n := range names {
+	fmt.Fprintf(&sb, "find %s %d", verifutil.HexS(req), len(keys))
+	for _, k := range keys {
+		n := k.name
 		p := paths[n]
 		rx := 0
 		if p.Regexp != nil {
@@ -100,7 +154,7 @@ func verifC14FindOp(req string, names []string, paths map[string]*Path) string {
 				g = verifC14Groups(re.FindStringSubmatch(req))
 			}
 		}
-		fmt.Fprintf(&sb, " %s %d %s", verifutil.HexS(n), rx, g)
+		fmt.Fprintf(&sb, " %s %d %s %s", verifutil.HexS(n), rx, g, k.tok())
 	}
 	return sb.String()
 }
@@ -129,9 +183,10 @@ func verifC14Once(paths map[string]*Path, req string) string {
 			n++
 		}
 	}
-	if n != 1 || p.Name != key {
+	if n != 1 {
 		return "found foreign-conf"
 	}
+	// (p.Name != key is reported by the validate op; the lookup answer identifies the configuration by its key)
 	return "found " + verifutil.HexS(key) + " " + verifC14Groups(m)
 }
 
@@ -142,14 +197,16 @@ func verifC14Exec(op string) string {
 		return "ok"
 	case "validate":
 		n := verifutil.Atoi(f[1])
+		keys := make([]verifC14Key, n)
 		names := make([]string, n)
-		for i := range names {
-			names[i] = verifutil.UnHexS(f[2+2*i])
+		for i := range keys {
+			keys[i] = verifC14ParseMember(verifutil.UnHexS(f[2+3*i]), f[4+3*i])
+			names[i] = keys[i].name
 		}
-		if verifC14ValidateOp(names) != op {
+		if verifC14ValidateOp(keys) != op {
 			return "stale-oracle"
 		}
-		c, err := verifC14Build(names)
+		c, err := verifC14Build(keys)
 		if err != nil {
 			switch {
 			case strings.Contains(err.Error(), "are aliases"):
@@ -159,7 +216,7 @@ func verifC14Exec(op string) string {
 			case strings.HasPrefix(err.Error(), "invalid regular expression"):
 				return "err regex"
 			}
-			return "err other"
+			return "err other " + strings.ReplaceAll(err.Error(), " ", "_")
 		}
 		if len(c.Paths) != len(names) {
 			return "ok wrong-size"
@@ -183,21 +240,25 @@ func verifC14Exec(op string) string {
 		req := verifutil.UnHexS(f[1])
 		n := verifutil.Atoi(f[2])
 		names := make([]string, 0, n)
+		keys := make([]verifC14Key, 0, n)
 		i := 3
 		for j := 0; j < n; j++ {
-			names = append(names, verifutil.UnHexS(f[i]))
+			nm := verifutil.UnHexS(f[i])
 			i += 2
 			if f[i] == "N" {
 				i++
 			} else {
 				i += 1 + verifutil.Atoi(f[i][1:])
 			}
+			keys = append(keys, verifC14ParseMember(nm, f[i]))
+			names = append(names, nm)
+			i++
 		}
-		c, err := verifC14Build(names)
+		c, err := verifC14Build(keys)
 		if err != nil {
 			return "not-validatable"
 		}
-		if verifC14FindOp(req, names, c.Paths) != op {
+		if verifC14FindOp(req, keys, c.Paths) != op {
 			return "stale-oracle"
 		}
 		h := fnv.New64a()
@@ -255,7 +316,7 @@ var verifC14Regex = []string{
 
 var verifC14BadKeys = []string{"", "/x", "x/", "a b", "a/../b", "~(", "~[a", "~a(", "..", "a//b/.", "é"}
 
-func verifC14Keys(r *verifutil.Rand) []string {
+func verifC14Keys(r *verifutil.Rand) []verifC14Key {
 	seen := map[string]bool{}
 	var names []string
 	add := func(s string) {
@@ -289,7 +350,33 @@ func verifC14Keys(r *verifutil.Rand) []string {
 		j := r.Intn(k + 1)
 		names[k], names[j] = names[j], names[k]
 	}
-	return names
+	// a third of the cases: some entries carry a `name` member (a body copied from GET of another path, or a
+	// `name:` line in the file): equal to the key, another key, a catch-all, a regexp, a static name, empty
+	keys := make([]verifC14Key, len(names))
+	withMembers := r.Chance(1, 3)
+	for i, n := range names {
+		keys[i] = verifC14Key{name: n}
+		if withMembers && r.Chance(1, 2) {
+			keys[i].has = true
+			switch r.Intn(8) {
+			case 0:
+				keys[i].member = n
+			case 1, 2:
+				keys[i].member = names[r.Intn(len(names))]
+			case 3:
+				keys[i].member = r.Pick("all_others", "all", "~^.*$")
+			case 4:
+				keys[i].member = r.Pick("~^zzz", "~", "~^0", "~^(.*)$", "~A")
+			case 5:
+				keys[i].member = r.Pick("backup", "cam", "0", "zz")
+			case 6:
+				keys[i].member = ""
+			default:
+				keys[i].member = verifC14Static[r.Intn(len(verifC14Static))]
+			}
+		}
+	}
+	return keys
 }
 
 func verifC14Req(r *verifutil.Rand, names []string) string {
@@ -310,14 +397,18 @@ func verifC14Req(r *verifutil.Rand, names []string) string {
 }
 
 func verifC14Gen(r *verifutil.Rand, i int, thorough bool) []string {
-	names := verifC14Keys(r)
-	ops := []string{"reset", verifC14ValidateOp(names)}
-	c, err := verifC14Build(names)
+	keys := verifC14Keys(r)
+	names := make([]string, len(keys))
+	for j, k := range keys {
+		names[j] = k.name
+	}
+	ops := []string{"reset", verifC14ValidateOp(keys)}
+	c, err := verifC14Build(keys)
 	if err != nil {
 		return ops
 	}
 	for k := 2 + r.Intn(4); k > 0; k-- {
-		ops = append(ops, verifC14FindOp(verifC14Req(r, names), names, c.Paths))
+		ops = append(ops, verifC14FindOp(verifC14Req(r, names), keys, c.Paths))
 	}
 	return ops
 }
@@ -356,6 +447,12 @@ func verifC14Class(op, impl string) string {
 }
 
 func TestVerifC14(t *testing.T) {
+	dir, err := os.MkdirTemp("", "verifc14")
+	if err != nil {
+		t.Fatal(err)
+	}
+	defer os.RemoveAll(dir)
+	verifC14Dir = dir
 	verifutil.Main(t, &verifutil.Harness{
 		ID: "C14", Exec: verifC14Exec, Gen: verifC14Gen, Quick: 1500, Thorough: 60000,
 		Class: verifC14Class,
